@@ -578,7 +578,7 @@ def run(chk):
                    "which links the current /repo/src/Imath/ImathRandom.cpp and includes ImathRandom.h",
                    "translator harness/sym (the sampler templates of ImathRandom.h instantiated with the scripted generator of "
                    "harness/sym/ops_c18.h at T = Sym; Vec::length() is the generated Gen.V?.length), validated each run by TV (bitwise at "
-                   "float and double; gaussSphereRand at float) and, for the entries without opaque calls, by evaluating the emitted Lean text at Rat",
+                   "float and double; gaussSphereRand at float) and by evaluating the emitted Lean text of all 9 entries at Rat",
                    "splitmix64 input generator duplicated in driver and harness (a discrepancy would show as a mismatch)",
                    "glibc nrand48/erand48/lrand48/drand48/srand48 as the executable POSIX reference",
                    "g++ -O1 -ffp-contract=off -fno-lifetime-dse and the CPU executing the harness (IEEE double/float arithmetic; the harness's "
@@ -591,8 +591,8 @@ def run(chk):
                        "theorems are about exact arithmetic over an ordered field; loop termination is not claimed",
                        "gaussRand is float-typed for every vector type and is not regenerated: its loop model Field.gaussRandLoop is tied by "
                        "the scripted-generator lattice (361 candidates) only; in gaussSphereRand it is a parameter `g` of the generated body",
-                       "lean_tv (emitted text at Rat) covers the 3 solidSphere entries only; the 6 entries calling Vec::length() are "
-                       "characterised for ALL inputs by the *_iter_eq / *_body_eq theorems and their trees are validated bitwise by TV"]
+                       "lean_tv (emitted text at Rat) evaluates Vec::length() with the fixed rational stubs of harness/sym/c10frac.h (not a real "
+                       "square root): it validates the emitter (call/argument order, branch structure), not the arithmetic meaning"]
     chk.rule = ("(1) every combination of limbs in {0,1,0x7fff,0x8000,0xfffe,0xffff,0x330e,0xff,0xff00}^3, the preimages of 25 boundary "
                 "successor values (all-zero, all-ones, 2^47, 2^44, 2^17, limb borders) and the analytically computed carry states (the 11 low "
                 "words xl with 0xdeece66d*xl mod 2^32 >= 2^32-11, their non-carrying neighbours, same for the low 16-bit limb) x each entry "
@@ -631,7 +631,24 @@ def run(chk):
             chk.fail("extract:c18:paths", "extract:c18:paths", "a sampler loop body has a different number of decision paths than the documented "
                      "loop (a test was added or dropped)", {"paths": paths, "expected": {k % 3: v for k, v in want.items()}}, False)
         troute.tv(chk, bins["sym_c18"], "c18", 2000 if chk.thorough else 400, idx_deps=[leaf_idx])
-        troute.lean_tv(chk, bins["sym_c18"], "c18", index, n=8 if chk.thorough else 4, idx_deps=[leaf_idx])
+        # emitted Lean text at Rat vs trees at exact fractions; Vec::length at exact fractions through c10frac.h, so all 9 entries are
+        # covered.  The shared case generator draws integers in [-4,4] (mostly rejected candidates): the number of cases per entry is
+        # raised (120, 240, ...) until every entry also has accepted candidates (counted from the same rattv run; an obligation).
+        acc, ncase = {}, 120
+        for ncase in (120, 240, 480, 960):
+            _, rat = lib.sh([bins["sym_c18"], "rattv", str(chk.seed), str(ncase), "--idx", leaf_idx], timeout=600)
+            acc = {d["name"]: 0 for d in index}
+            for l in rat.split("\n"):
+                t = l.split()
+                if len(t) > 2 and t[0] == "RATCASE" and " OUT exc=- " in l and t[1] in acc:
+                    acc[t[1]] += 1
+            if acc and all(v > 0 for v in acc.values()):
+                break
+        troute.lean_tv(chk, bins["sym_c18"], "c18", index, n=ncase, idx_deps=[leaf_idx])
+        okacc = bool(acc) and all(v > 0 for v in acc.values())
+        chk.oblige("lean-tv:c18: every entry is exercised on accepted candidates as well as rejected ones", "translation-validation",
+                   okacc, {"cases_per_entry": ncase, "accepted": acc})
+        chk.extra.setdefault("lean_tv", {}).setdefault("c18", {})["accepted_candidate_cases"] = dict(acc, cases_per_entry=ncase)
         for d in index:
             chk.sample({"entry": d["name"], "paths": d.get("paths"), "reads": d.get("extra")})
     chk.check_theorems("ImathVerif.Props.C18", required=REQUIRED, search=make_search(chk))
